@@ -114,11 +114,6 @@ ARCH_PRELUDE = r'''
     pub unsafe fn vx_reserve_components(components: &mut VxColumns, length: usize, additional: usize)
         requires old(components)@.len() == length,
         ensures final(components)@ == old(components)@ { unimplemented!() }
-
-    pub mod entities_shim {
-        // `entities::Batch<E>` is a plain wrapper around the column tuple
-        pub struct Batch<E> { pub entities: E }
-    }
 '''
 
 ARCH_SPEC = r'''
@@ -278,6 +273,7 @@ def archetype_items(u):
                ("C01.remove.ids", "final(self).ids() == vx_swap_remove(old(self).ids(), index as int)"),
                ("C01.remove.rows", "final(self).rows() == vx_swap_remove(old(self).rows(), index as int)"),
                ("C02.remove.fixup", "final(self).agrees(final(entity_allocator))"),
+               ("C02.remove.pointwise", "forall|i: entity::Identifier| #![trigger final(entity_allocator).resolves(i)] #![trigger old(entity_allocator).resolves(i)] (final(entity_allocator).resolves(i) == old(entity_allocator).resolves(i)) && (old(entity_allocator).resolves(i) && !(index < old(self).length - 1 && i == old(self).ids().last()) ==> final(entity_allocator).view()[i] == old(entity_allocator).view()[i])"),
                ("C02.remove.alloc_view", "final(entity_allocator).view() == (if index < old(self).length - 1 { old(entity_allocator).view().insert(old(self).ids().last(), Location { identifier: old(self).key(), index: index }) } else { old(entity_allocator).view() })"),
                ("C13.count", "final(entity_allocator).active_count() == old(entity_allocator).active_count()"),
                ("frame.free", "final(entity_allocator).free@ == old(entity_allocator).free@"),
@@ -298,6 +294,7 @@ def archetype_items(u):
                ("C01.pop.rows", "final(self).rows() == vx_swap_remove(old(self).rows(), index as int)"),
                ("C01.pop.returns_row", "r.0 == old(self).ids()[index as int] && vx_buffer_row(r.1@) == old(self).rows()[index as int]"),
                ("C02.pop.fixup", "final(self).agrees(final(entity_allocator))"),
+               ("C02.pop.pointwise", "forall|i: entity::Identifier| #![trigger final(entity_allocator).resolves(i)] #![trigger old(entity_allocator).resolves(i)] (final(entity_allocator).resolves(i) == old(entity_allocator).resolves(i)) && (old(entity_allocator).resolves(i) && !(index < old(self).length - 1 && i == old(self).ids().last()) ==> final(entity_allocator).view()[i] == old(entity_allocator).view()[i])"),
                ("C02.pop.alloc_view", "final(entity_allocator).view() == (if index < old(self).length - 1 { old(entity_allocator).view().insert(old(self).ids().last(), Location { identifier: old(self).key(), index: index }) } else { old(entity_allocator).view() })"),
                ("C13.count", "final(entity_allocator).active_count() == old(entity_allocator).active_count()"),
                ("frame.free", "final(entity_allocator).free@ == old(entity_allocator).free@"),
@@ -362,26 +359,26 @@ def archetype_items(u):
                 let t1 = vx_self0.ids().take(k + 1);
                 assert(t1 =~= t0.push(idk));
                 assert forall|i: entity::Identifier| entity_allocator.resolves(i) == (vx_alloc0.resolves(i) && !t1.contains(i)) by {
-                    assert(entity_allocator.view().dom().contains(i) == vx_pre.view().remove(idk).dom().contains(i));
-                    if t1.contains(i) {
-                        let j = choose|j: int| 0 <= j < t1.len() && t1[j] == i;
-                        if j < k { assert(t0[j] == i); }
-                    } else {
+                    assert(entity_allocator.resolves(i) == (vx_pre.resolves(i) && i != idk));
+                    assert(vx_pre.resolves(i) == (vx_alloc0.resolves(i) && !t0.contains(i)));
+                    assert(t1.contains(i) == (t0.contains(i) || i == idk)) by {
+                        if t1.contains(i) {
+                            let j = choose|j: int| 0 <= j < t1.len() && t1[j] == i;
+                            if j < k { assert(t0[j] == i); }
+                        }
                         if t0.contains(i) {
                             let j = choose|j: int| 0 <= j < t0.len() && t0[j] == i;
                             assert(t1[j] == i);
                         }
-                        assert(i != idk) by { assert(t1[k] == idk); }
+                        if i == idk { assert(t1[k] == idk); }
                     }
                 }
                 assert forall|r: int| k + 1 <= r < vx_self0.length implies entity_allocator.resolves(#[trigger] vx_self0.ids()[r]) by {
                     assert(vx_self0.ids()[r] != idk);
-                    assert(vx_pre.view().dom().contains(vx_self0.ids()[r]));
-                    assert(entity_allocator.view().dom().contains(vx_self0.ids()[r]));
+                    assert(vx_pre.resolves(vx_self0.ids()[r]));
                 }
                 assert forall|i: entity::Identifier| entity_allocator.resolves(i) implies entity_allocator.view()[i] == vx_alloc0.view()[i] by {
-                    assert(entity_allocator.view().dom().contains(i));
-                    assert(vx_pre.view().dom().contains(i));
+                    assert(vx_pre.resolves(i));
                 }
             }''', anchor=r"entity_allocator\.free_unchecked\("),
                   Hint("end", r'''proof {
@@ -409,11 +406,43 @@ def archetype_items(u):
     u.impl("impl<R> Archetype<R> where R: Registry", fns)
 
 
+EN = "src/entities/mod.rs"
+
+BATCH_HELPERS = r'''
+/// R10b: `assert!(c)` returns only if `c` holds (it panics, i.e. does not return, otherwise)
+#[verifier::external_body]
+pub fn vx_assert(c: bool)
+    ensures c { unimplemented!() }
+#[verifier::external_body]
+pub fn vx_check_len<E>(e: &E) -> (b: bool) { unimplemented!() }
+'''
+
+
 def build():
     u = alloc.build(name="arch", archetype_items=archetype_items)
+    u.text(BATCH_HELPERS)
+    # ---- entities::Batch (real struct and constructors)
+    u.text("pub mod entities {\n    use super::*;")
+    u.struct(EN, "Batch")
+    u.text(r'''
+    impl<Entities> Batch<Entities> {
+        /// type invariant established by both constructors
+        pub open spec fn wf(&self) -> bool { self.len == archetype::vx_batch_rows(self.entities).len() }
+    }
+''')
+    u.impl("impl<Entities> Batch<Entities>", [
+        Fn(EN, r"^impl<Entities> Batch<Entities>\s*where", "new", ret="r", where="",
+           ensures=[("C18.batch_new_checked", "r.wf() && r.entities == entities")],
+           props=["C18"]),
+        Fn(EN, r"^impl<Entities> Batch<Entities>\s*where", "new_unchecked", ret="r", where="",
+           ensures=[("C18.batch_len", "r.wf() && r.entities == entities")],
+           props=["C18", "C01"]),
+        Fn(EN, r"^impl<Entities> Batch<Entities> \{", "len", ret="n",
+           ensures=[("batch.len", "n == self.len")], props=["C01"]),
+    ])
+    u.text("}")
     u.type_rewrites += [
-        (r"\bentity::Allocator<R>", "Allocator<R>", "path: entity::Allocator is the allocator type at the root of the emitted file"),
-        (r"\bentities::Batch<E>", "entities_shim::Batch<E>", "path of the Batch wrapper"),
+        (r"\bentity::Allocator\b", "Allocator", "path: entity::Allocator is the allocator type at the root of the emitted file"),
         (r"&self\.components\b", "&mut self.components", "R6: columns are mutated through a shared reference to their raw parts; the abstract store is passed mutably"),
         (r"\bR::new_components_with_capacity\(", "vx_new_components_with_capacity(", "R6"),
         (r"\b(\w+)\.push_components\(", r"vx_push_components(\1, ", "R6"),
@@ -428,7 +457,14 @@ def build():
         (r"\bR::shrink_components_to_fit\(", "vx_shrink_components_to_fit(", "R6"),
         (r"\bE::reserve_components\(", "vx_reserve_components(", "R6"),
     ]
+    u.type_rewrites += [
+        (r"entities\.component_len\(\)", "archetype::vx_component_len(&entities)", "R6"),
+        (r"entities\.check_len\(\)", "vx_check_len(&entities)", "R6 (K-batch decides check_len)"),
+        (r"\bassert!\(", "vx_assert(", "R10b: assert!(c) -> call that returns only if c"),
+    ]
     u.label_props.update({
+        "C18": ["C18"],
+        "batch": ["C01"],
         "arch": ["C13", "C01"],
         "C13.agrees": ["C13", "C02", "C01"],
         "C02.remove.fixup": ["C02", "C13", "C01"],
